@@ -4,6 +4,7 @@ from __future__ import annotations
 import ast
 import itertools
 import json
+import re
 import os
 import shutil
 import subprocess
@@ -182,8 +183,16 @@ def histories(ctx: Ctx, td: str, files: list[str]) -> None:
         "rerun-after-edit": f"import pathlib\np = pathlib.Path({str(edited)!r})\np.write_text({base_src!r})\ngo([str(p)])\np.write_text({new_src!r})\ngo([str(p)])",
         "many-runs-id-reuse": "".join(f"go([{f!r}]); " for f in (f1, f1, f1, f1, f1, f1)),
     }
+    # checks that remember `id(node)` of nodes they have dealt with, in module-level sets that are never emptied:
+    # once the trees of an earlier run are freed, nodes of a later run can be given the same ids
+    big_a = Path(td) / "ids_a.py"
+    big_b = Path(td) / "ids_b.py"
+    head = "def f(a, b):\n    return a + b\nps = [(1, 2)]\n"
+    big_a.write_text(head + "".join(f"x{i} = [f(a, b) for a, b in ps]\n" for i in range(300)))
+    big_b.write_text(head + "".join(f"y{i} = list(f(a, b) for a, b in ps)\n" for i in range(300)))
+    scen["stale-node-ids"] = "import gc\n" + "".join(f"go([{str(big_a)!r}]); gc.collect(); go([{str(big_b)!r}]); gc.collect(); " for _ in range(4))
     fresh = {}
-    for f in [f0, f1, f2, f3]:
+    for f in [f0, f1, f2, f3, str(big_a), str(big_b)]:
         r, err = in_process(PRELUDE + f"go([{f!r}])", td)
         fresh[f] = r[0] if r else [f"<no result: {err[-200:]}>"]
     r, _ = in_process(PRELUDE + f"go({[f0, f1]!r})", td)
@@ -198,6 +207,8 @@ def histories(ctx: Ctx, td: str, files: list[str]) -> None:
             want = [fresh[f] for f in (f0, f1, f2, f3, f0, f1, f2, f3)]
         elif name == "many-runs-id-reuse":
             want = [fresh[f1]] * 6
+        elif name == "stale-node-ids":
+            want = [fresh[str(big_a)], fresh[str(big_b)]] * 4
         else:
             edited.write_text(new_src)
             r2, _ = in_process(PRELUDE + f"go([{str(edited)!r}])", td)
@@ -207,9 +218,14 @@ def histories(ctx: Ctx, td: str, files: list[str]) -> None:
         if res != want:
             idx = next((i for i, (a, b) in enumerate(zip(res, want)) if a != b), min(len(res), len(want)))
             got_i = res[idx] if idx < len(res) else None
-            ctx.report(f"history:{name}", f"run #{idx + 1} of history `{name}` differs from the same run in a fresh process: "
+            miss = [x for x in (want[idx] or []) if x not in (got_i or [])] if idx < len(want) else []
+            extra = [x for x in (got_i or []) if idx < len(want) and x not in (want[idx] or [])]
+            # the one way history is known to leak (see known_findings): diagnostics of the id-remembering checks go missing, nothing else changes
+            stale = bool(miss) and not extra and all(re.search(r"\[FURB(140|179|183|185|188)\]", x) for x in miss)
+            ctx.report("history:stale-node-ids" if stale else f"history:{name}", f"run #{idx + 1} of history `{name}` differs from the same run in a fresh process: "
                        f"{[x for x in (got_i or []) if x not in (want[idx] or [])][:2]} / missing {[x for x in (want[idx] or []) if x not in (got_i or [])][:2]}",
-                       {"history": name, "script": script, "run": idx + 1, "got": got_i, "fresh": want[idx] if idx < len(want) else None, "stderr": err[-500:]})
+                       {"history": name, "script": script[:3000], "run": idx + 1, "got": (got_i or [])[:40], "fresh": (want[idx] if idx < len(want) else None or [])[:40],
+                        "n_got": len(got_i or []), "n_fresh": len(want[idx] or []) if idx < len(want) else None, "stderr": err[-500:]})
 
 
 def cache_and_concurrency(ctx: Ctx, td: str, files: list[str]) -> None:
